@@ -10,6 +10,7 @@ GROUPS = {
     "hints": ["C20"],
     "transit": ["C06", "C07"],
     "xfer": ["C04"],
+    "recvdest": ["C05"],
 }
 
 
